@@ -7,6 +7,7 @@ at the chunk end, and after a FAIL every later feed (any bytes, zero-length wher
 (C) the strict-done build differs from the normal build only by DONE arriving one call later.
 """
 import json
+import re
 
 from .. import cdrv, diff, gen, nm, trace, work
 from ..common import Ctx
@@ -108,7 +109,7 @@ def run(ctx: Ctx):
                 if p.zero_len:
                     lines += ["AFTER", "FEEDZ"]
                 if p.eof:
-                    lines += ["AFTER", "END"]      # end of input is the last event: nothing is fed after it
+                    lines += ["AFTER", "END", "AFTER", "FEED " + cdrv.hexs(bs[:3] or junk), "AFTER", "END"]
                 runs.append(("%s.%d" % (p.name, ii), p, lines))
         res = batch.run(runs, timeout=1200, zero_heap=True)
         ctx.count("binaries")
@@ -126,14 +127,17 @@ def run(ctx: Ctx):
                 if failed:
                     ctx.count("calls_after_fail")
                     if name != "FAIL":
-                        ctx.violation("c10:fail-not-absorbing:%s" % ("end" if kind == "E" else ("zero-length" if kind == "Z" else "feed")),
+                        tag = ""
+                        if failed == "by-end" and re.search(r"\bwait\b", p.meta["src"]):
+                            tag = "[after-end-inside-wait]"
+                        ctx.violation("c10:fail-not-absorbing:%s%s" % ("end" if kind == "E" else ("zero-length" if kind == "Z" else "feed"), tag),
                                       "after FAIL a later %s call returned %s" % ({"E": "end()", "Z": "zero-length feed()"}.get(kind, "feed()"), name),
                                       {"nmfu_source": p.meta["src"], "nmfu_args": p.meta["args"], "script": run_.script, "events": [str(x[:7]) for x in run_.events if x[0] == "R"]})
                         break
                 if name == "FAIL":
                     if not failed:
                         ctx.nontrivial((p.meta["src"], tuple(run_.script)))
-                    failed = True
+                        failed = "by-end" if kind == "E" else "by-feed"
                 if name == "OK" and kind in ("F", "Z") and off >= 0 and off != base + n and not failed:
                     ctx.violation("c10:ok-before-chunk-end", "feed returned OK with the pointer at %d, the chunk [%d,%d) was not consumed" % (off, base, base + n),
                                   {"nmfu_source": p.meta["src"], "nmfu_args": p.meta["args"], "script": run_.script})
